@@ -567,6 +567,12 @@ func streamAllow(g *G) { // C04
 func streamCrash(g *G) { // C05
 	g.emit("methods")
 	g.routerLine(900001, routerOpt{name: ""}) // NewRouter("") panics with a message, not a runtime fault
+	g.routerLine(900002, routerOpt{name: "long"})
+	for _, n := range []int{32766, 32767, 32768, 40000} { // one piece longer than MaxInt16 is a syntax error, not a fault
+		g.emit("syntax %s", encB("/"+strings.Repeat("a", n-1)))
+		g.emit("handle 900002 %s %d %%- %s", encB("/l/{id}/"+strings.Repeat("b", n-1)), n, encL([]string{"GET"}))
+	}
+	g.serveLine("serve", 900002, "GET", "/l/5/"+strings.Repeat("b", 32766), "", nil)
 	rid := 1
 	for !g.full() {
 		g.history(rid, histCfg{useIc: g.chance(0.5), trace: g.chance(0.3), probes: 4, siblings: g.chance(0.5), invalid: 0.3, oddRequest: 0.5}, 6+g.intn(12))
@@ -782,6 +788,12 @@ func streamCors(g *G) { // C11, C12
 	for !g.full() {
 		o := routerOpt{name: "c", cors: true, origins: corsOrigins[g.intn(len(corsOrigins))], allowH: corsAllowH[g.intn(len(corsAllowH))],
 			exposed: corsExposed[g.intn(len(corsExposed))], maxAge: []int{-1, 0, 50, -2}[g.intn(4)], cred: g.chance(0.4), trace: g.chance(0.2)}
+		switch g.intn(10) {
+		case 0: // the shape of WithDenyCORS()
+			o.origins, o.allowH, o.exposed, o.maxAge, o.cred = nil, nil, nil, 0, false
+		case 1: // the shape of WithAllowedCORS(maxAge)
+			o.origins, o.allowH, o.exposed, o.cred = []string{"*"}, []string{"*"}, nil, false
+		}
 		g.routerLine(rid, o)
 		if o.maxAge < -1 || (o.cred && contains(o.origins, "*")) {
 			rid++
